@@ -60,6 +60,26 @@ theorem uniq_append_singleton (v : α) (xs : List α) (h : v ∉ xs) : uniq (xs 
     have hxs : v ∉ xs := fun e => h (by simp [e])
     simp [uniq, ih hxs, List.filter_append, hx]
 
+/-- the repaired append rule on a whole list: the value ends up last, the others keep the order of their first
+occurrences -/
+theorem uniq_appendL (v : α) (l : List α) : uniq (appendL v l) = (uniq l).filter (· != v) ++ [v] := by
+  unfold appendL
+  rw [uniq_append_singleton v _ (by simp), filter_uniq]
+
+/-! normal forms of one action with a one-piece value -/
+theorem applyL_prepend_single (v : α) (old : List α) :
+    applyL false true [v] old = v :: (uniq old).filter (· != v) := by
+  simp [applyL, prependL, uniq]
+
+theorem applyL_append_single (v : α) (old : List α) :
+    applyL true true [v] old = (uniq old).filter (· != v) ++ [v] := by
+  simp only [applyL, loopVals_single, List.foldl_cons, List.foldl_nil, if_true]
+  exact uniq_appendL v old
+
+theorem applyL_remove_single (append : Bool) (v : α) (old : List α) :
+    applyL append false [v] old = (uniq old).filter (· != v) := by
+  simp [applyL, removeL, filter_uniq]
+
 end
 
 /-! ## string layer -/
@@ -203,8 +223,8 @@ theorem envPrepend_lifts (c : Nat) (hc : c ≠ 36) (append fwd : Bool) (var v : 
     not_mem_join c 36 _ (Ne.symm hc) hgood
   unfold envPrepend
   simp [startsWith_good c v hv, endsWith_good c v hv, henv,
-    expand_no_dollar env v hv.2.2, hsplitv, setEnvI]
-  rw [split_join_filter c oldl hold, interp_no_dollar env _ _ hnd]
+    expand_no_dollar env v hv.2.2, interp_no_dollar env _ v hv.2.2, hsplitv]
+  rw [split_join_filter c oldl hold]
 
 
 theorem join_cons_ne (c : Nat) (a : Str) (rest : List Str) (hr : rest ≠ []) :
@@ -311,7 +331,7 @@ theorem envPrepend_lifts_flags (c : Nat) (hc : c ≠ 36) (append pre app : Bool)
     cases app <;> simp [flagged]
   unfold envPrepend
   simp only [h1, List.length_singleton, h2, h3, h4, henv]
-  simp only [expand_no_dollar env v hv.2.2, hsplitv, setEnvI]
+  simp only [expand_no_dollar env v hv.2.2, interp_no_dollar env _ v hv.2.2, hsplitv]
   have hflt : List.filter (fun el => decide (el ≠ [])) (split [c] (join [c] oldl)) = oldl := by
     have := split_join_filter c oldl hold
     simpa using this
@@ -325,10 +345,10 @@ theorem envPrepend_lifts_flags (c : Nat) (hc : c ≠ 36) (append pre app : Bool)
   have a2 : (36 : Nat) ∉ J ++ [c] := by simp [hc', J, hnd]
   have a3 : (36 : Nat) ∉ c :: (J ++ [c]) := by simp [hc', J, hnd]
   cases pre <;> cases app
-  · simp [flagged, hsw, hew, interp_no_dollar env _ _ hnd]
-  · simp [flagged, hsw, hew]; rw [interp_no_dollar env _ _ a2]
-  · simp [flagged, hsw, hew, hew2]; rw [interp_no_dollar env _ _ a1]
-  · simp [flagged, hsw, hew, hew2]; rw [interp_no_dollar env _ _ a3]
+  · simp [flagged, hsw, hew]
+  · simp [flagged, hsw, hew]
+  · simp [flagged, hsw, hew, hew2]
+  · simp [flagged, hsw, hew, hew2]
 
 
 end EupsModel.PathAlg
